@@ -283,6 +283,16 @@ def run_case(rng, tier, case):
                 b3 = None
             if b3 is not None:
                 b4 = build(spec)
+                shared_tg = None
+                if rng.random() < 0.5:
+                    # all assets are handed ONE grid object first (as Portfolio.set_timegrid does), then each is set up on its own without grid argument
+                    try:
+                        shared_tg = build_timegrid(spec['grid'])
+                        for au in P.assets:
+                            au.set_timegrid(shared_tg)
+                        case.feature('assets_alone_on_one_shared_grid')
+                    except Exception:
+                        shared_tg = None
                 for au, af, ag in zip(P.assets, b3.portfolio.assets, b4.portfolio.assets):
                     try:
                         sfa = Snap(ag.setup_optim_problem(b4.prices, build_timegrid(spec['grid'])))          # reference: fresh object, grid given explicitly
@@ -295,7 +305,9 @@ def run_case(rng, tier, case):
                     except Exception as e:
                         case.check('purity.asset_alone_without_grid_argument_same_as_fresh', False, asset=type(af).__name__, fresh_object=True, error='%s: %s' % (type(e).__name__, str(e)[:160]))
                     try:
-                        au.set_timegrid(build_timegrid(spec['grid'])); sua = Snap(au.setup_optim_problem(b.prices))
+                        if shared_tg is None:
+                            au.set_timegrid(build_timegrid(spec['grid']))
+                        sua = Snap(au.setup_optim_problem(b.prices))
                         da = problem_diff(sua, sfa, rtol=1e-12, compare_mapping=True)
                         case.check('purity.asset_alone_without_grid_argument_same_as_fresh', da is None, asset=type(au).__name__, history=hist, diff=da)
                     except Exception as e:
